@@ -232,6 +232,10 @@ func runPager(c Case, e *env) []Event {
 			items = append(items, fmt.Sprintf(`<a href="%s">%s</a>`, strings.ReplaceAll(convHref(fam, k+1, style), "&", "&amp;"), lab))
 		}
 		pager = wrapItems(items, wrap, sep)
+		if (wrap == "div" || wrap == "") && r.Intn(3) == 0 {
+			// a word in front of the numbers, in the same text node as the first of them when that one is plain text
+			pager = strings.Replace(pager, "<div>", "<div>"+pickS(r, "Pages: ", "Page ", "Seiten: "), 1)
+		}
 		pageURL = convURL(fam, k)
 		for i := 1; i <= n; i++ {
 			urlIndex[convURL(fam, i)] = i
